@@ -404,37 +404,66 @@ def _drop_optional_tables(db: DBSession):
         db.execute(f"DROP TABLE IF EXISTS {name}")
 
 
-async def revert_optional_steps(workflow: Workflow, reporter: ReporterClient):
+def _revert_optional_steps(workflow: Workflow) -> tuple[int, dict[str, FileHash | None]]:
+    """Do the database part of `revert_optional_steps`, inside the transaction of the caller.
+
+    Returns
+    -------
+    nstep
+        The number of reverted steps.
+    to_be_deleted
+        The paths that were queued for deletion, with their hashes (`None` for volatile files).
+    """
+    db = workflow.db
+    # Drop before creating out of precaution.
+    # (In principle redundant, because async with db rolls back on error.)
+    _drop_optional_tables(db)
+    # Get the optional steps that are not pending, and mark them pending again.
+    db.execute(CREATE_OPTIONAL_STEP_TABLE)
+    db.execute(CREATE_OPTIONAL_TO_BE_DELETED_TABLE)
+    cur = db.execute(UPDATE_OPTIONAL_STEPS)
+    nstep = cur.rowcount
+    cur = db.execute(SELECT_OPTIONAL_TO_BE_DELETED)
+    to_be_deleted = {
+        row[0]: None if row[1] == FileState.VOLATILE.value else FileHash.from_json(row[2])
+        for row in cur
+    }
+    if len(to_be_deleted) > 0:
+        # Mark the files for deletion and reset their state in the database.
+        # Their nodes stay in the graph, so `File.before_delete` does not run for them
+        # and their directories have to be marked here.
+        workflow.to_be_deleted.update(to_be_deleted)
+        for path in to_be_deleted:
+            workflow.mark_dir_to_be_deleted(Path(path).parent)
+        db.execute(UPDATE_OPTIONAL_TO_BE_DELETED)
+    # Drop in the end: the temp tables are only needed for the duration of this call.
+    _drop_optional_tables(db)
+    return nstep, to_be_deleted
+
+
+async def revert_optional_steps(
+    workflow: Workflow, reporter: ReporterClient, *, in_transaction: bool = False
+):
     """Revert optional steps that have been executed earlier back to PENDING.
 
     Their outputs are reset in the database and their paths are queued
     in `Workflow.to_be_deleted`, so `remove_deletable_files` takes them off disk.
+
+    Parameters
+    ----------
+    workflow, reporter
+        The workflow to update and the reporter to inform.
+    in_transaction
+        When `True`, the caller holds an open transaction (`async with db:`) that this
+        function uses, instead of opening and committing one of its own.
+        `Builder.finalize` does so to commit the reset only after the files are gone,
+        see there.
     """
-    db = workflow.db
-    async with db:
-        # Drop before creating out of precaution.
-        # (In principle redundant, because async with db rolls back on error.)
-        _drop_optional_tables(db)
-        # Get the optional steps that are not pending, and mark them pending again.
-        db.execute(CREATE_OPTIONAL_STEP_TABLE)
-        db.execute(CREATE_OPTIONAL_TO_BE_DELETED_TABLE)
-        cur = db.execute(UPDATE_OPTIONAL_STEPS)
-        nstep = cur.rowcount
-        cur = db.execute(SELECT_OPTIONAL_TO_BE_DELETED)
-        to_be_deleted = {
-            row[0]: None if row[1] == FileState.VOLATILE.value else FileHash.from_json(row[2])
-            for row in cur
-        }
-        if len(to_be_deleted) > 0:
-            # Mark the files for deletion and reset their state in the database.
-            # Their nodes stay in the graph, so `File.before_delete` does not run for them
-            # and their directories have to be marked here.
-            workflow.to_be_deleted.update(to_be_deleted)
-            for path in to_be_deleted:
-                workflow.mark_dir_to_be_deleted(Path(path).parent)
-            db.execute(UPDATE_OPTIONAL_TO_BE_DELETED)
-        # Drop in the end: the temp tables are only needed for the duration of this call.
-        _drop_optional_tables(db)
+    if in_transaction:
+        nstep, to_be_deleted = _revert_optional_steps(workflow)
+    else:
+        async with workflow.db:
+            nstep, to_be_deleted = _revert_optional_steps(workflow)
     # Report the reverted steps and the files that are marked for deletion.
     if nstep > 0:
         await reporter("WARNING", f"Reverted {nstep} optional step(s) to PENDING.")
